@@ -36,6 +36,13 @@ PROPS = {
                "every theorem is re-checked against them; extraction validated by executing the real predicates",
         "assumptions": ["reference = authentic emoji-data 13.0 + GraphemeBreakProperty 13.0.0 reconstructed from UAX #29 Table 2 over Python 3.9 unicodedata (DESIGN.md section 5)"],
     },
+    "C03": {
+        "lean_modules": ["RosedVerif.Props.C03"],
+        "theorems": [],
+        "groups": ["A-rel"],
+        "oracle": True,
+        "tie": "relational run on the real code: the same operation on a stable text and on its cluster-for-cluster substitution (precomposed/decomposed, emoji ZWJ, flags, jamo), both also run on the model",
+    },
     "C04": {
         "lean_modules": ["RosedVerif.Props.C04"],
         "theorems": [],
@@ -141,6 +148,20 @@ PROPS = {
                    "A-justify", "A-align", "A-indent", "A-twocol", "A-deftable", "A-table", "A-options", "POOL"],
         "oracle": True,
         "tie": "every group's cases run under recover + watchdog + utf8.ValidString on the real code and compared with the model's Except result",
+    },
+    "C19": {
+        "lean_modules": ["RosedVerif.Props.C19"],
+        "theorems": [],
+        "groups": ["H-hist", "H-all"],
+        "oracle": True,
+        "tie": "layer H heap model (Heap/Model.lean) of gem.String with cache cells, tied by H-hist/H-all: after every step the hooks read runes, cache and cell identity of every pool value",
+    },
+    "C20": {
+        "lean_modules": ["RosedVerif.Props.C20"],
+        "theorems": [],
+        "groups": ["H-all", "Z-prog"],
+        "oracle": True,
+        "tie": "layer H heap model tied by H-all; package-level cell monitored after every public operation (Z-prog); regenerated fact zeroCachePrefilled",
     },
 }
 
